@@ -488,6 +488,50 @@ func cmdImport(args []string) int {
 	if err := os.WriteFile(filepath.Join(cf.out, "cases_C10_0.v"), []byte(b.String()), 0o644); err != nil {
 		return 2
 	}
+	// thorough tier: one very large import through the rules service (more records than one store
+	// transaction holds): every record must be there afterwards
+	if cf.tier == "thorough" {
+		base, err := os.MkdirTemp("", "vh-c10-big-")
+		if err != nil {
+			return 2
+		}
+		const nKeys = 60000
+		err = withRules(ctx, base, func(r *standardrules.Service) error {
+			prot := make(map[[48]byte]*rules.SlashingProtection, nKeys)
+			for i := 0; i < nKeys; i++ {
+				var k [48]byte
+				copy(k[:], rng.Bytes(48))
+				prot[k] = &rules.SlashingProtection{PubKey: append([]byte{}, k[:]...), HighestProposedSlot: 1000 + int64(i), HighestAttestedSourceEpoch: 100, HighestAttestedTargetEpoch: 101}
+			}
+			if err := r.ImportSlashingProtection(ctx, prot); err != nil {
+				return err
+			}
+			raw, err := r.VerifRaw(ctx)
+			if err != nil {
+				return err
+			}
+			missing := 0
+			for k := range prot {
+				for _, action := range []byte{2, 3} {
+					var rk [49]byte
+					copy(rk[:], k[:])
+					rk[48] = action
+					if _, ok := raw[rk]; !ok {
+						missing++
+					}
+				}
+			}
+			stats["big-import.records"] = len(raw)
+			if missing > 0 {
+				monFail = append(monFail, fmt.Sprintf("an import of %d keys (%d records) reported success but %d records are missing from the store: those validators can sign at or below values the file lists", nKeys, 2*nKeys, missing))
+			}
+			return nil
+		})
+		_ = os.RemoveAll(base)
+		if err != nil {
+			monFail = append(monFail, "large import failed: "+err.Error())
+		}
+	}
 	sum := &Summary{Property: "C10", Seed: cf.seed, Tier: cf.tier, Evaluations: len(cases), Distinct: len(distinct),
 		Rule:         "runs of the real dirk binary's --import-slashing-protection on (prior database x interchange file) pairs: 3 keys with none/attestation/proposal/both records; files of 1-4 entries with repeated keys, 0-2 blocks and attestations per entry whose numbers are older / equal / newer than the database per field, negative, out of range, non-numeric, empty, signed or zero-padded; bad-hex / short / long / unprefixed keys, null entries; wrong version / root / no metadata; sequences of 1-3 imports on one database; after each successful import the store is probed at every file and prior value; distinct = distinct (database, file) pairs",
 		Histories:    nSeq,
